@@ -494,7 +494,8 @@ class ToIndexLambdaMixin:
 
         # Mypy has a point: the type system does not prove that the operands are
         # not complex-valued or bool.
-        indices[axis] = (indices[axis] - expr.shift) % axis_len_expr  # type: ignore[operator, call-overload]
+        # (int: a shift given as a fixed-width NumPy integer wraps around when negated)
+        indices[axis] = (indices[axis] - int(expr.shift)) % axis_len_expr  # type: ignore[operator, call-overload]
 
         if indices:
             index_expr = index_expr[tuple(indices)]
